@@ -46,7 +46,12 @@ func Group(services *fun.Iterator[*Service]) *Service {
 					ec.Add(s.Start(ctx))
 				}(services.Value())
 			}
-			wg.Wait(ctx)
+			// every starter returns promptly (Start does not
+			// block): wait for all of them even when the
+			// context has ended, so that no member is started
+			// after the waiters queue is closed and then never
+			// awaited.
+			wg.Operation().Wait()
 			ec.Add(waiters.Close())
 
 			// the members run under this context, which is
